@@ -1,7 +1,7 @@
 SPECIFICATION GenSpec
 CONSTANTS
   BeginOnce = TRUE
-  UnorderedDst = {}
+  UnorderedDst = {"1:c:s"}
   MaxIdx = 3
   Timeouts = {0, 1, 2, 3}
   MaxH = 14
